@@ -84,6 +84,7 @@ from cylc.flow.task_state import (
     TASK_STATUS_FAILED,
     TASK_STATUS_PREPARING,
     TASK_STATUS_RUNNING,
+    TASK_STATUS_SUBMIT_FAILED,
     TASK_STATUS_SUBMITTED,
     TASK_STATUS_SUCCEEDED,
     TASK_STATUS_WAITING,
@@ -651,6 +652,7 @@ class TaskPool:
             if itask.state(
                     TASK_STATUS_RUNNING,
                     TASK_STATUS_FAILED,
+                    TASK_STATUS_SUBMIT_FAILED,
                     TASK_STATUS_SUCCEEDED
             ):
                 outputs = json.loads(outputs_str)
